@@ -33,6 +33,9 @@ class ArrayV(object):
     def m_tolist(self, I, args, kwargs):
         return ListV([Num(ep.sym(n)) for n in self.names], "list")
 
+    def iter_items(self, I):
+        return [Num(ep.sym(n)) for n in self.names]
+
 
 def numpy_model(I, cap, prefix):
     def array(args, kwargs, node, env):
